@@ -76,6 +76,9 @@ Inductive outcome :=
 | OutOfFuel         (* still looping *)
 | Unmodelled.       (* the input leaves the modelled fragment of the protocol *)
 
+Definition finished (o : outcome) : bool :=
+  match o with Returned | Panicked => true | _ => false end.
+
 (* resources created on the connection's behalf minus those the code releases *)
 Record res := mkRes { r_gor : Z; r_lis : Z; r_fds : Z }.
 Definition res0 := mkRes 0 0 0.
